@@ -92,27 +92,52 @@ class ImportConverter:
                     )
                 )  # type: ignore
         elif isinstance(module, ast.ImportFrom):
+            new_imports = []
             if module.level == 0:
-                new_imports = [
-                    AbsoluteImport(
-                        module_name,
-                        self._adjust_with_root_prefix(
-                            module.module,  # type: ignore
-                            absolute_import_prefix,
-                            all_internal_modules,
-                        ),
-                    )
-                ]
-            else:
-                new_imports = []
+                imported_from = self._adjust_with_root_prefix(
+                    module.module,  # type: ignore
+                    absolute_import_prefix,
+                    all_internal_modules,
+                )
                 for alias in module.names:
                     new_imports.append(
-                        RelativeImport(
-                            module_name, module.module, alias.name, module.level
+                        AbsoluteImport(
+                            module_name,
+                            self._submodule_if_internal(
+                                imported_from, alias.name, all_internal_modules
+                            ),
                         )
                     )
+            else:
+                for alias in module.names:
+                    relative_import = RelativeImport(
+                        module_name, module.module, alias.name, module.level
+                    )
+                    submodule = self._submodule_if_internal(
+                        relative_import.importee(), alias.name, all_internal_modules
+                    )
+                    if module.module is not None and submodule != relative_import.importee():
+                        new_imports.append(AbsoluteImport(module_name, submodule))
+                    else:
+                        new_imports.append(relative_import)
 
         return new_imports
+
+    @classmethod
+    def _submodule_if_internal(
+        cls,
+        imported_from: str,
+        imported_name: str,
+        all_internal_modules: set[str],
+    ) -> str:
+        """'from P import n': n could be a function/class in P or a submodule of P. If P.n is a known internal
+        module, the import is an import of P.n, otherwise of P."""
+        potential_submodule = f"{imported_from}.{imported_name}"
+
+        if potential_submodule in all_internal_modules:
+            return potential_submodule
+
+        return imported_from
 
     @classmethod
     def _adjust_with_root_prefix(
